@@ -100,7 +100,10 @@ def run(ctx):
     if k in seen:
       continue
     seen.add(k)
-    ctx.ob('ESC/may-escape', fi, i.node, False, '%s (class %s) - only MIDIConversionError may leave midi_to_note_sequence' % (i.why, i.exc))
+    # a typed finding (a recognised form that can raise a specific class outside a converting handler) is a positive result of the
+    # analysis, wherever the statement stands; class 'Any' only says that the form is outside what the checker recognises
+    ctx.ob('ESC/may-escape', fi, i.node, False, '%s (class %s) - only MIDIConversionError may leave midi_to_note_sequence' % (i.why, i.exc),
+           definite=i.positive, unknown=(None if i.positive else i.why))
   ctx.ob('ESC/closed-world', fi, fi.node, not issues,
          '%d statement/expression forms and %d protobuf stores examined: none can raise anything but MIDIConversionError' % (an.checked, an.stores) if not issues else
          '%d sites may let another exception escape' % len(seen), construct='midi_to_note_sequence: closed-world escape analysis')
